@@ -110,6 +110,47 @@ def whole_tree_variants(prop: str, baseline: list) -> tuple[dict, list]:
     return summary, problems
 
 
+def seeded_variants(prop: str) -> tuple[dict, list]:
+    """Apply every confirmed seeded defect kept under /verif/seeded/<prop>/ to a scratch copy of the tree and require the property's
+    own rule set to report a violation.  A patch that no longer applies (the code it touches was repaired or moved since) is
+    reported as `not applicable`, not as a failure."""
+    import subprocess
+    import tempfile as _tf
+
+    from .core import VERIF, load_known
+
+    root = VERIF / "seeded" / prop
+    summary: dict = {}
+    problems: list = []
+    if not root.is_dir():
+        return summary, problems
+    mod = importlib.import_module(f"fv.rules.{prop.lower()}")
+    known, _ = load_known(prop)
+    for d in sorted(p for p in root.iterdir() if (p / "patch.diff").exists()):
+        tmp = Path(_tf.mkdtemp(prefix="fvseed_"))
+        try:
+            _copy_repo(tmp)
+            r = subprocess.run(["patch", "-p1", "-s", "-f", "-i", str(d / "patch.diff")], cwd=tmp, capture_output=True, text=True)
+            if r.returncode != 0:
+                summary[d.name] = "not applicable to this tree (the touched code changed since the seed was written)"
+                continue
+            rep = Report(prop, "selftest")
+            try:
+                mod.run(Repo(tmp), rep, "quick")
+            except AnalysisError as e:
+                summary[d.name] = f"analysis stops (fail-closed): {str(e)[:100]}"
+                continue
+            bad = [o for o in rep.obs if o.status == "violated" and o.key() not in known]
+            if bad:
+                summary[d.name] = f"reported: {bad[0].rule} {bad[0].construct[:90]}"
+            else:
+                summary[d.name] = "MISSED"
+                problems.append((f"seed:{prop}/{d.name}", "missed", "seeded defect not reported"))
+        finally:
+            shutil.rmtree(tmp, ignore_errors=True)
+    return summary, problems
+
+
 def run_for(prop: str) -> int:
     try:
         from . import mutants
